@@ -152,6 +152,11 @@ impl Prop for C15 {
             for k in 0..n {
                 let site = fault_site(&base.log[k], &text);
                 for (fault, fk) in [(Fault::Err, "err"), (Fault::ErrNested, "err-nested"), (Fault::Panic, "panic")] {
+                    // the engine's own error kinds matter where the engine might react to them:
+                    // function dispatch (context, then global, then "not registered")
+                    if fault == Fault::ErrNested && !site.contains("function") {
+                        continue;
+                    }
                     let case = format!("faults|{} fault={}@{}", show(&text), fk, k);
                     let (mut ctx, _, _) = compare_run(ast, &text, &world, fault, k, &format!("{}:{}", site, key), &case, out);
                     out.outcomes.insert(format!("site:{}", site));
